@@ -87,3 +87,17 @@ Proof.
   - destruct H as (E & Fin & _). split; assumption.
   - rewrite <- abs_IZR. change (bpow radix2 emax) with (IZR (2 ^ 1024)). apply IZR_lt. cbn. lia.
 Qed.
+
+Theorem fmul_err a b : finF a -> finF b -> Rabs (FR a * FR b) <= BIG ->
+  finF (a * b)%float /\ exists eps et, Rabs eps <= u /\ Rabs et <= eta /\ FR (a * b)%float = (FR a * FR b) * (1 + eps) + et.
+Proof.
+  intros Fa Fb Hb. unfold finF, FR in *. rewrite mul_equiv.
+  pose proof (Bmult_correct prec emax Hprec Hmax mode_NE (Prim2B a) (Prim2B b)) as H.
+  rewrite (RN_lt_emax _ Hb) in H. destruct H as (E & Fin & _).
+  split; [rewrite Fin, Fa, Fb; reflexivity|]. rewrite E. apply RN_err.
+Qed.
+
+Lemma FR_one : FR 1%float = 1. Proof. unfold FR. cbn. unfold F2R. cbn. lra. Qed.
+Lemma FR_two : FR 2%float = 2. Proof. unfold FR. cbn. unfold F2R. cbn. lra. Qed.
+Lemma finF_one : finF 1%float. Proof. reflexivity. Qed.
+Lemma finF_two : finF 2%float. Proof. reflexivity. Qed.
